@@ -330,7 +330,17 @@ def run(ctx) -> list[Inst]:
                       and o[0].isupper()]
             per_step = 'var' in children_idx or any(
                 o[0].islower() and (uses.get(o, set()) & {'idxvar', 'iter'}) for o in ops)
-            if truthy and not per_step:
+            counted = [o for o in ops if o[0].isupper() and uses.get(o, set()) & {'idxvar'} or
+                       any(k.startswith('idx:') for k in uses.get(o, set()) if o[0].isupper())]
+            if len(ops) >= 2 and counted and not per_step:
+                insts.append(Inst(
+                    RULE, f.short, construct, 'violation',
+                    msg=(f"{vname} takes the operator of a step from ctx.{counted[0]}(i), the i-th '{counted[0]}' token of "
+                         f"the whole '{rname}' chain: with alternatives {'|'.join(ops)} the i-th token of ONE kind is "
+                         f"not the token standing between operands i and i+1, so mixed chains get their operators "
+                         f"assigned to the wrong positions"),
+                    file=rel, line=f.node.lineno, props=PROPS))
+            elif truthy and not per_step:
                 insts.append(Inst(
                     RULE, f.short, construct, 'violation',
                     msg=(f"{vname} chooses the operator from the presence of ctx.{truthy[0]}() in the whole "
